@@ -80,6 +80,7 @@ CHECKS = {
     },
     "C05": {
         "pkg": "checks/c05", "level": "model_checking", "engine": "E1 bubble-net",
+        "extra_builds": [{"name": "psown", "modfile": "go.ps.mod", "tags": ["psonly"]}],
         "technique": "exhaustive enumeration of a deviation-strategy catalogue x victim sets x (n,t) x deviator position on the full real stack in a synctest bubble (deviator = real instance behind an output filter), default and <=1-deviation schedules",
         "level_text": "every cell of the catalogue is executed to the virtual deadline; oracles: no panic, return by deadline, identical public material among completers, every honest t-subset signs under the reported key, reveal only after all commitments",
         "level_note": "strategy catalogue is finite (26 strategies); BLS and PS (message length 1); n <= 4; loud mode",
@@ -111,6 +112,7 @@ CHECKS = {
     },
     "C18": {
         "pkg": "checks/c18", "level": "exploration", "engine": "E4 bounded-exhaustive",
+        "extra_builds": [{"name": "psown", "modfile": "go.ps.mod", "tags": ["psonly"]}],
         "technique": "exhaustive enumeration of (n,t) and of all subsets through the public API on real DKG outputs; per-position off-polynomial fault",
         "level_text": "all 2 <= t <= n <= 7 (thorough 9) for BLS and n <= 4 (5) for PS; every subset of size >= t reconstructs in the exponent, every subset of size t-1 does not; a key off the polynomial is detected at every position",
         "level_note": "polynomials are random (3 per cell): a random evaluation decides each identity up to 2^-240 (as the property states); internal helpers (chooseKoutOfN, reconstruct) are exercised only through KeyGen/Verifier",
@@ -126,6 +128,7 @@ CHECKS = {
     },
     "C09": {
         "pkg": "checks/c09", "level": "exploration", "engine": "E4 bounded-exhaustive",
+        "extra_builds": [{"name": "psown", "modfile": "go.ps.mod", "tags": ["psonly"]}],
         "technique": "exhaustive enumeration of a perturbation catalogue (every field x perturbation kind, every transposition/shift, every subset below t) over real signatures, requests and proofs; every verdict taken twice",
         "level_text": "every perturbed object of the catalogue is rejected, every genuine one accepted, and repeating a verification or a signing of the same bytes / the same parsed object gives the same verdict",
         "level_note": "algebraic perturbations are +generator / +1 / substitution (not arbitrary values); MPrime of the request is deliberately not in the catalogue (the signer recomputes it from cm, it is not bound by the proof)",
@@ -133,6 +136,7 @@ CHECKS = {
     },
     "C10": {
         "pkg": "checks/c10", "level": "exploration", "engine": "E4 bounded-exhaustive over E1 states",
+        "extra_builds": [{"name": "psown", "modfile": "go.ps.mod", "tags": ["psonly"]}],
         "technique": "exhaustive enumeration of a structure-aware input catalogue (truncations, extensions, substitutions, ASN.1 element removal/duplication, topic and message-type variants) x sources x session states, fired at the real dispatcher of live sessions in a synctest bubble and at the direct backend / verification entry points; process crashes attributed by the worker protocol",
         "level_text": "no input of the catalogue, in any of the listed session states and from any source, makes the process panic or a call hang; input from non-participants never disturbs the honest session; the session is driven to its end after every batch",
         "level_note": "byte values outside the catalogue are not covered; ECDSA/EdDSA adapters and the connection handshake are covered by C19/C16's catalogues",
